@@ -46,6 +46,10 @@ Forms == [
   cast         |-> <<"x", "as", "u8">>,
   castgeneric1 |-> <<"x", "as", "M", "<", "K", ">">>,
   castgeneric2 |-> <<"x", "as", "M", "<", "K", ",", "V", ">">>,
+  castglobal   |-> <<"x", "as", "::", "a", "::", "M", "<", "K", ",", "V", ">">>,
+  castptr      |-> <<"x", "as", "*", "const", "M", "<", "K", ",", "V", ">">>,
+  castref      |-> <<"x", "as", "&", "M", "<", "K", ",", "V", ">">>,
+  castarith    |-> <<"x", "as", "u8", "*", "a">>,
   closure0     |-> <<"|", "|", "x">>,
   closure1     |-> <<"|", "a", "|", "a">>,
   closure2     |-> <<"|", "a", ",", "b", "|", "a", "+", "b">>,
